@@ -21,7 +21,7 @@ from lib import concolic
 from lib.symtrace import Gen, coq_expr, sym_input, input_pattern, coq_type, PrintError
 from lib.corr import sym_num
 from lib.core import REPO
-from lib.gens import log_uniform, rand_unit, rand_rot, rand_trans
+from lib.gens import log_uniform, rand_unit, rand_rot, rand_trans, rand_rot2
 
 concolic.install()
 from spatialmath import base, SE3, SO3, SE2, SO2, Twist3, Twist2, Quaternion, UnitQuaternion  # noqa: E402
@@ -31,7 +31,7 @@ EPS = float(np.finfo(np.float64).eps)
 
 
 # ====================================================================================== T-const
-KEEP = {'_eps', 'tol', 'np', 'base', 'math', 'self', 'abs', 'iszerovec', 'iszero', 'ishom', 'isrot', 'norm', 'None',
+KEEP = {'_eps', 'tol', 'np', 'base', 'math', 'self', 'abs', 'iszerovec', 'iszero', 'ishom', 'isrot', 'ishom2', 'isrot2', 'norm', 'None',
         'unitvec', 'getvector'}
 
 
@@ -64,6 +64,7 @@ SKELETON = {
     ('base/vectors.py', 'angdiff'): ['if:_ is None'],
     ('base/quaternions.py', 'unit'): ['if:abs(_) < tol * _eps'],
     ('base/transforms3d.py', 'trnorm'): ['if:not ishom(_) and (not isrot(_))', 'if:ishom(_)'],
+    ('base/transforms2d.py', 'trnorm2'): ['if:not ishom2(_) and (not isrot2(_))', 'if:ishom2(_)'],
 }
 
 
@@ -243,12 +244,17 @@ Definition m_unittwist2_norm (S : V3 T) : V4 T :=
   let '((a,b,c), th) := unittwist2_norm_m O thr_twist2_w S in (a,b,c,th).
 Definition m_angdiff1 (a : T) : T := angdiff1_m O a.
 Definition m_angdiff2 (a b : T) : T := angdiff2_m O a b.
-Definition m_twist3_unit (S : V6 T) : option (V6 T) := twist3_unit_m O thr_unitvec S.
+(* Twist3.unit = Twist3(base.unittwist(S)), Twist2.unit = Twist2(base.unittwist2(S)) *)
+Definition m_twist3_unit (S : V6 T) : option (V6 T) := unittwist_m O thr_twist_S thr_twist_w S.
+Definition m_twist2_unit (S : V3 T) : V3 T := unittwist2_m O thr_twist2_w S.
+(* trnorm2 calls the same unitvec (same threshold) on the second column *)
+Definition m_trnorm22 (R : M22 T) : option (M22 T) := trnorm22_m O thr_unitvec R.
+Definition m_trnorm23 (A : M33 T) : option (M33 T) := trnorm23_m O thr_unitvec A.
 End Consts.
 Create HintDb c14gen discriminated.
 """
 M_NAMES = ['m_unitvec', 'm_unitvec_norm', 'm_qunit', 'm_trnorm33', 'm_trnorm44', 'm_unittwist', 'm_unittwist_norm',
-           'm_unittwist2', 'm_unittwist2_norm', 'm_angdiff1', 'm_angdiff2', 'm_twist3_unit']
+           'm_unittwist2', 'm_unittwist2_norm', 'm_angdiff1', 'm_angdiff2', 'm_twist3_unit', 'm_twist2_unit', 'm_trnorm22', 'm_trnorm23']
 THR_NAMES = ['unitvec', 'unitvec_norm', 'qunit', 'twist_S', 'twistn_S', 'twist_w', 'twist2_w']
 
 
@@ -399,6 +405,17 @@ def build(ctx, th):
             return [T]
         return s
 
+    def mat2_sampler(n):
+        def s(rng):
+            R = rand_rot2(rng) + rng.normal(size=(2, 2)) * log_uniform(rng, 1e-15, 1e-2)
+            if n == 2:
+                return [R]
+            T = np.eye(3)
+            T[:2, :2] = R
+            T[:2, 2] = rand_trans(rng, 1e-6, 1e6, 2)
+            return [T]
+        return s
+
     def ang_sampler(k):
         # stay away from the wrap points (the float floor-form and fmod may differ by one turn within an ulp of them)
         def one(rng):
@@ -446,8 +463,15 @@ def build(ctx, th):
     T0[:3, :3] = R0
     T0[:3, 3] = [1, 2, 3]
     g.trace('tr_trnorm44', [('A', 'M44')], conc('tr_trnorm44', base.trnorm, [T0], alloc=True), num_fn=base.trnorm, sampler=mat_sampler(4))
-    g.trace('tr_T3_unit', V6i, conc('tr_T3_unit', lambda S: Twist3(S).unit.S, [S6]), num_fn=lambda S: Twist3(S).unit.S,
-            sampler=vec_sampler(6))
+    t3u, t2u = (lambda S: Twist3(S).unit.S), (lambda S: Twist2(S).unit.S)
+    g.trace('tr_T3_unit_rot', V6i, conc('tr_T3_unit_rot', t3u, [S6]), num_fn=t3u, sampler=twist_sampler('rot'))
+    g.trace('tr_T3_unit_irr', V6i, conc('tr_T3_unit_irr', t3u, [S6_IRR]), num_fn=t3u, sampler=twist_sampler('irr'))
+    g.trace('tr_T2_unit_rot', S3i, conc('tr_T2_unit_rot', t2u, [[1, 2, 3]]), num_fn=t2u, sampler=twist2_sampler('rot'))
+    g.trace('tr_T2_unit_irr', S3i, conc('tr_T2_unit_irr', t2u, [[1, 2, 0]]), num_fn=t2u, sampler=twist2_sampler('irr'))
+    R20 = [[0.6, -0.8], [0.8, 0.6]]
+    T20 = [[0.6, -0.8, 1.5], [0.8, 0.6, -2.5], [0, 0, 1]]
+    g.trace('tr_trnorm22', [('R', 'M22')], conc('tr_trnorm22', base.trnorm2, [R20], alloc=True), num_fn=base.trnorm2, sampler=mat2_sampler(2))
+    g.trace('tr_trnorm23', [('A', 'M33')], conc('tr_trnorm23', base.trnorm2, [T20], alloc=True), num_fn=base.trnorm2, sampler=mat2_sampler(3))
     g.trace('tr_UQ_sv', [('s', 'S'), ('v', 'V3')], conc('tr_UQ_sv', lambda s, v: UnitQuaternion(s, v).vec, [1.0, [2, 3, 4]]),
             num_fn=lambda s, v: UnitQuaternion(s, v).vec,
             sampler=lambda rng: (lambda q: [float(q[0]), q[1:]])(rand_unit(rng, 4) * log_uniform(rng, 1e-6, 1e6)))
@@ -459,9 +483,10 @@ def build(ctx, th):
             ('pc_unitvec_norm_none', V3i, base.unitvec_norm, [[0, 0, 0]]),
             ('pc_qunit_none', V4i, base.unit, [[0, 0, 0, 0]]),
             ('pc_unittwist_none', V6i, base.unittwist, [[0] * 6]),
-            ('pc_unittwist_norm_none', V6i, base.unittwist_norm, [[0] * 6])]:
+            ('pc_unittwist_norm_none', V6i, base.unittwist_norm, [[0] * 6]),
+            ('pc_trnorm22_none', [('R', 'M22')], base.trnorm2, [[[1, 0], [0, 0]]])]:
         r = pc_only(name, inputs, fn, vals)
-        ok = r is None or isinstance(r, ValueError) or (isinstance(r, tuple) and all(x is None for x in r))
+        ok = r is None or isinstance(r, (ValueError, TypeError)) or (isinstance(r, tuple) and all(x is None for x in r))
         if not ok:
             raise PrintError(f"{name}: the zero input did not take the None/ValueError path (got {r!r})")
         none_paths[name] = inputs
@@ -524,8 +549,36 @@ def build(ctx, th):
             sampler=both(['rot', 'irr'], twist2_sampler))
     g.model('m_angdiff1', [('a', 'S')], 'S', coq='m_angdiff1', module=None, num_fn=base.angdiff, sampler=ang_sampler(1), tol=1e-9)
     g.model('m_angdiff2', [('a', 'S'), ('b', 'S')], 'S', coq='m_angdiff2', module=None, num_fn=base.angdiff, sampler=ang_sampler(2), tol=1e-9)
-    g.model('m_twist3_unit', V6i, 'O:V6', coq='m_twist3_unit', module=None, num_fn=lambda S: Twist3(S).unit.S,
-            sampler=vec_sampler(6), note='Twist3.unit (SMTwist.unit) normalises the whole 6-vector: modelled as it is')
+    g.model('m_twist3_unit', V6i, 'O:V6', coq='m_twist3_unit', module=None, num_fn=t3u,
+            sampler=both(['rot', 'irr'], twist_sampler), note='Twist3.unit = Twist3(base.unittwist(S))')
+    g.model('m_twist2_unit', S3i, 'V3', coq='m_twist2_unit', module=None, num_fn=t2u,
+            sampler=both(['rot', 'irr'], twist2_sampler), note='Twist2.unit = Twist2(base.unittwist2(S))')
+
+    def opt2(f):
+        def h(*a):
+            try:
+                return f(*a)
+            except (ValueError, TypeError):
+                return None
+        return h
+
+    def mat2z_sampler(n):
+        # as mat2_sampler, plus second columns that are exactly zero / far below the threshold (trnorm2 raises)
+        def s(rng):
+            M = mat2_sampler(n)(rng)[0]
+            r = rng.random()
+            if r < 0.1:
+                M[:2, 1] = 0.0
+            elif r < 0.2:
+                M[:2, 1] = rand_unit(rng, 2) * log_uniform(rng, 1e-30, tv / 4)
+            return [M]
+        return s
+    g.model('m_trnorm22', [('R', 'M22')], 'O:M22', coq='m_trnorm22', module=None, num_fn=opt2(base.trnorm2), sampler=mat2z_sampler(2))
+    g.model('m_trnorm23', [('A', 'M33')], 'O:M33', coq='m_trnorm23', module=None, num_fn=opt2(base.trnorm2), sampler=mat2z_sampler(3))
+    g.model('m_trnorm22_SO2_norm', [('R', 'M22')], 'O:M22', coq='m_trnorm22', module=None,
+            num_fn=lambda R: SO2(R, check=False).norm().A, sampler=mat2_sampler(2), note='SO2.norm() against the same model')
+    g.model('m_trnorm23_SE2_norm', [('A', 'M33')], 'O:M33', coq='m_trnorm23', module=None,
+            num_fn=lambda A: SE2(A, check=False).norm().A, sampler=mat2_sampler(3), note='SE2.norm() against the same model')
     return g, none_paths
 
 
@@ -710,9 +763,9 @@ class Oracle:
         rng = self.rng
         tw, t2 = self.tw, self.t2
         s3 = [('unittwist', base.unittwist), ('unittwist_norm', lambda S: base.unittwist_norm(S)[0]),
-              ('Twist3.unit', lambda S: Twist3(S).unit.S)]
+              ('Twist3.unit->unittwist', lambda S: Twist3(S).unit.S)]
         s2 = [('unittwist2', base.unittwist2), ('unittwist2_norm', lambda S: base.unittwist2_norm(S)[0]),
-              ('Twist2.unit', lambda S: Twist2(S).unit.S)]
+              ('Twist2.unit->unittwist2', lambda S: Twist2(S).unit.S)]
         for i in range(N):
             for dim, sites, thr in ((3, s3, tw), (2, s2, t2)):
                 nv, nw = (3, 3) if dim == 3 else (2, 1)
@@ -769,16 +822,47 @@ class Oracle:
         self.ok('zero-gives-None', 'unittwist_norm', 'zero', 0.0 if base.unittwist_norm(np.zeros(6)) == (None, None) else 1.0, 0.5, np.zeros(6))
         self.ctx.sample({'kind': 'oracle', 'law': 'unittwist valid/idempotent', 'S': S.tolist()})
 
-    # ------------------------------------------------------------------ 2-D pose normalisation
-    def poses2(self):
-        for C in (SO2, SE2):
-            try:
-                X = C(0.3)
-                Y = X.norm()
-                R = np.asarray(Y.A, float)[:2, :2]
-                self.ok('valid', C.__name__ + '.norm', 'valid-input', np.max(np.abs(R @ R.T - np.eye(2))), TOL, X.A)
-            except Exception as ex:
-                self.raised(C.__name__ + '.norm', ex, [0.3])
+    # ------------------------------------------------------------------ 2-D pose normalisation (trnorm2, SO2/SE2.norm)
+    @staticmethod
+    def so2_residual(R):
+        R = np.asarray(R, float)
+        if R.shape != (2, 2) or not np.all(np.isfinite(R)):
+            return float('inf')
+        return max(np.max(np.abs(R @ R.T - np.eye(2))), abs(np.linalg.det(R) - 1))
+
+    def matrices2(self, N):
+        rng = self.rng
+        sites = [('trnorm2(2x2)', 2, lambda M: base.trnorm2(M)), ('trnorm2(3x3)', 3, lambda M: base.trnorm2(M)),
+                 ('SO2.norm', 2, lambda M: SO2(M, check=False).norm().A), ('SE2.norm', 3, lambda M: SE2(M, check=False).norm().A)]
+        grid = [1e-15, 1e-12, 1e-9, 1e-6, 1e-4, 1e-3, 1e-2]
+        for i in range(N):
+            R0 = rand_rot2(rng)
+            mag = grid[i % len(grid)] if i < 4 * len(grid) else log_uniform(rng, 1e-15, 1e-2)
+            Rn = R0 + rng.normal(size=(2, 2)) * mag
+            t = rand_trans(rng, 1e-6, 1e6, 2)
+            for site, n, f in sites:
+                if n == 2:
+                    M0, M = R0, Rn
+                else:
+                    M0, M = np.eye(3), np.eye(3)
+                    M0[:2, :2], M[:2, :2] = R0, Rn
+                    M0[:2, 2] = M[:2, 2] = t
+                try:
+                    M1 = np.asarray(f(M), float)
+                    M2 = np.asarray(f(M1), float)
+                    F0 = np.asarray(f(M0), float)
+                except Exception as ex:
+                    self.raised(site, ex, M)
+                    continue
+                R1 = M1[:2, :2]
+                self.ok('valid', site, 'noisy', self.so2_residual(R1), TOL, M, {'noise': mag})
+                self.ok('idempotent', site, 'noisy', np.max(np.abs(M2 - M1)), TOL, M, {'noise': mag})
+                self.ok('fixed', site, 'valid-input', np.max(np.abs(F0[:2, :2] - M0[:2, :2])), TOL, M0)
+                y = M[:2, 1]
+                self.ok('second-axis', site, 'noisy', np.max(np.abs(R1[:, 1] - y / np.linalg.norm(y))), TOL, M)
+                if n == 3:
+                    self.ok('translation-kept', site, 'noisy', 0.0 if np.array_equal(M1[:2, 2], t) and np.array_equal(F0[:2, 2], t) else 1.0, 0.5, M)
+                    self.ok('last-row', site, 'noisy', 0.0 if np.array_equal(M1[2, :], [0, 0, 1]) else 1.0, 0.5, M)
 
     # ------------------------------------------------------------------ angles
     @staticmethod
@@ -838,7 +922,7 @@ def oracle(ctx, th, rng=None):
     o.matrices(ctx.n(700, 15000))
     o.vectors(ctx.n(1500, 40000))
     o.twists(ctx.n(3000, 80000))
-    o.poses2()
+    o.matrices2(ctx.n(700, 15000))
     o.angles(ctx.n(5000, 150000))
 
 
